@@ -25,7 +25,7 @@ hooks=json.load(open(os.path.join(ROOT,'tools','hooks.json'))) if os.path.exists
 m={'version':1,
  'setup_cmd':'./setup.sh',
  'hooks':{'guard':'verif','enable':'go build -tags verif (harness module with replace github.com/cockroachdb/apd/v3 => /repo)','baseline_off_cmd':'cd /repo && GOFLAGS=-mod=mod GOPROXY=off GOSUMDB=off GOTOOLCHAIN=local go test -json -vet=off -count=1 -timeout 25m ./...','source_commits':hooks['source_commits'],'add_only':True},
- 'engines':[{'name':'lean-model+correspondence','path':'/verif/check','serves_properties':sorted(claims.CLAIMS),'kind_free_text':'Lean 4 theorems about a hand-written executable model (lean/ApdVerif); Go harness (harness/) + compiled Lean driver for the model/implementation correspondence and the failing-input search by specification oracles; go/ast translator (harness/cmd/xlate) for regenerated leaf definitions'}],
+ 'engines':[{'name':'lean-model+correspondence','path':'/verif/check','serves_properties':sorted(claims.CLAIMS),'kind_free_text':'Lean 4 theorems about a hand-written executable model (lean/ApdVerif); Go harness (harness/) + compiled Lean driver for the model/implementation correspondence and the failing-input search by specification oracles; go/ast translator (harness/cmd/xlate) for regenerated leaf definitions, regenerated store-level programs (Gen/Imp.lean, Gen/ImpTrans.lean; Props/GenTieImp*.lean) and declaration fingerprints; go/ast inventory of panic/loop sites (harness/cmd/sites) for C04'}],
  'checks':checks,
  'notes':'See DESIGN.md. Each check: regenerate Gen/*.lean from /repo, lake build + #print axioms audit of the property theorems, rebuild harness against /repo, run streams through real code and model, classify.',
  'not_applicable':na}
